@@ -48,7 +48,7 @@ MANIFEST = dict(
          "one update) so the SHA-1/MD5 32-bit bit-counter halves carry. Every digest is compared bit-for-bit with an independent "
          "implementation, and one-shot interfaces with streaming. Exploration is the right level: the input space is unbounded, the "
          "oracle is exact, the mechanisms named in the property (buffer/flush, pad threshold, bit count, long-key hashing, INT(i), "
-         "final partial block, slice tables/alignment prologue) each have a deliberately populated input class.",
+         "final partial block, slice tables/alignment prologue) each have a deliberately populated input class. Single arguments beyond 32 bits are covered by dedicated subs: one update call of 2^32+k bytes per hash and for CRC32C, PBKDF2 with dkLen > 2^32 (output into aliased address space) and, in the thorough tier, PBKDF2 with c = 2^32+k iterations against a reference chain computed in parallel.",
     note="Trusted: clang 14 + ASan/UBSan, rapidcheck, OpenSSL 3 libcrypto (digests/HMAC, validated at start-up against published "
          "vectors), the GF(2) divider and RFC 8018 loop in props/C01/core.cpp. Which SHA-256/CRC32C code path runs is decided by the "
          "library at run time (SHA-NI/SSE4.2 here); equality of paths is C03. Messages >= 2^61 bytes not reachable.",
